@@ -459,6 +459,18 @@ func runBlock(r *simk.Run, f focus) *simk.Violation {
 		shape2At := 0
 		if shape2 {
 			shape2At = c.Intn(nTx - 3)
+			if c.Bool(0.7) {
+				// the first reader is the slowest task of the block: it starts executing only when nothing else
+				// can run, so everything ordered after it only by the shared key has every chance to overtake it
+				r1 := uint64(shape2At + 1)
+				s.StarveFn = func(site string, key uint64) bool {
+					if site == "executor.work" && key == r1 {
+						s.Probe("slow_first_reader_held_back")
+						return true
+					}
+					return false
+				}
+			}
 		}
 		shapeAt := 0
 		if shape {
